@@ -107,6 +107,9 @@ class SystemWZ3(Inference):
                 contra_solver.add(c.make_not_A_or_B())
             if contra_solver.check() == unsat:
                 return True
+            if len(self.epistemic_state["partition"]) == 1:
+                # all conditionals sit in the infinity layer: no feasible world is preferred to another
+                return False
 
             # worlds falsifying a conditional of the infinity layer are infeasible
             for c in self.epistemic_state["partition"][-1]:
